@@ -15,4 +15,10 @@ try:
 except Exception:
     traceback.print_exc()
     ok = False
+try:
+    from vf.props import C16
+    ok &= bool(C16.regen_fquad())
+except Exception:
+    traceback.print_exc()
+    ok = False
 print("regen", "ok" if ok else "with failures (reported by the checks)")
